@@ -11,7 +11,7 @@ def key_fn(case, obs, verdict):
         f = f[1:]
     why = verdict.replace("BAD:", "").split(" ")
     kind = f[0]
-    sub = f[1].lower() if kind in ("ammo", "pfx", "trunc", "badhdr", "conv", "cfghdrs", "wfile", "cfile", "sfile", "vsrc", "ctag", "indext", "sdesc", "popt") and len(f) > 1 else ""
+    sub = f[1].lower() if kind in ("ammo", "pfx", "trunc", "badhdr", "conv", "cfghdrs", "wfile", "cfile", "sfile", "vsrc", "ctag", "indext", "sdesc", "popt", "rerr") and len(f) > 1 else ""
     site = why[0]
     what = "-".join(why[1:3])[:40]
     if hostile and what in ("outcome-oom", "outcome-hang", "outcome-crash"):
